@@ -34,7 +34,7 @@ def bit (m : Nat) : Nat := 1 <<< m
 
 def maskOf (ms : List Nat) : Nat := ms.foldl (fun a m => a ||| bit m) 0
 
-def hasBit (mask m : Nat) : Bool := (mask >>> m) % 2 == 1
+def hasBit (mask m : Nat) : Bool := mask.testBit m
 
 /-- One round: every function's mask absorbs the masks of its callees. -/
 def step (fs : List Fn) (r : List Nat) : List Nat :=
